@@ -178,7 +178,7 @@ def run_tlc(spec_dir: Path, module: str, cfg: T.Optional[str] = None, *,
             (d / cfg).write_text(cfg_text)
         for name, text in (files or {}).items():
             (d / name).write_text(text)
-        cmd = ['java', '-XX:+UseParallelGC', '-Xmx' + heap, '-Xss' + stack]
+        cmd = ['java', '-XX:+UseParallelGC', '-Xmx' + heap, '-Xss' + stack, f'-Djava.io.tmpdir={d}']
         if deque:
             cmd.append('-Dtlc2.tool.queue.IStateQueue=StateDeque')
         cmd += ['-cp', TLA_CP, 'tlc2.TLC', '-workers', str(workers), '-metadir', str(d / 'meta'),
@@ -518,6 +518,20 @@ class Check:
 def run_check(main: T.Callable[[Check], None], prop: str, level: str = 'model_checking',
               replay: T.Optional[T.Callable[[Check, T.Dict[str, T.Any]], None]] = None) -> int:
     chk = Check(prop, level)
+    # every temporary file of the run (worker processes and TLC's JVM included) lives under one directory that is
+    # removed when the check ends, whatever happened to the workers
+    base = os.environ.get('VERIF_TMPDIR') or os.environ.get('TMPDIR') or '/tmp'
+    run_tmp = tempfile.mkdtemp(prefix=f'verif-run-{prop}-', dir=base)
+    os.environ['TMPDIR'] = os.environ['VERIF_TMPDIR'] = run_tmp
+    tempfile.tempdir = None
+    try:
+        return _run_check(chk, main, prop, replay)
+    finally:
+        shutil.rmtree(run_tmp, ignore_errors=True)
+
+
+def _run_check(chk: 'Check', main: T.Callable[['Check'], None], prop: str,
+               replay: T.Optional[T.Callable[['Check', T.Dict[str, T.Any]], None]]) -> int:
     try:
         rp = os.environ.get('VERIF_REPLAY')
         if rp:
